@@ -165,7 +165,10 @@ func scenarios(prop, tier string) []runner.Sc {
 	h := []ctl.Mut{{Op: "set", Name: "b", Labels: "l=1"}, {Op: "set", Name: "a", Labels: "l=0"}, {Op: "set", Name: "b", Labels: "l=0", Delay: time.Second}}
 	var out []runner.Sc
 	mk := func(name string, c ctl.Cfg, x expect) {
-		c.Name, c.Period, c.Mode, c.Bound = name, P, "S2", d
+		c.Name, c.Period, c.Mode = name, P, "S2"
+		if c.Bound == 0 {
+			c.Bound = d
+		}
 		c.Pre, c.Hist = pre, h
 		if c.ReadAt == 0 {
 			c.ReadAt = 2500 * time.Millisecond
@@ -224,6 +227,12 @@ func scenarios(prop, tier string) []runner.Sc {
 			mk("race-api-after1/"+kind, ctl.Cfg{Tree: sm, RaceAPI: true, Close: ctl.CloseSpec{Kind: kind, AfterMut: 1}, APICalls: true}, expect{rootDown: true})
 		}
 		mk("race-api/no-close", ctl.Cfg{Tree: sm, RaceAPI: true, APICalls: true}, expect{})
+		// the context ends while a watch event / a list result is on its way through the controller (the cache may be
+		// down before the controller hands it over)
+		for _, cc := range []ctl.Cfg{{CancelOnFrame: 1}, {CancelOnFrame: 2}, {CancelOnList: 1}, {CancelOnList: 2, ReadAt: 5 * time.Second}} {
+			cc.APICalls, cc.Bound = true, d+1
+			mk(fmt.Sprintf("ctx-as-frame%d-list%d-is-handed-over", cc.CancelOnFrame, cc.CancelOnList), cc, expect{closed: "*", rootDown: true})
+		}
 	}
 	return out
 }
